@@ -157,6 +157,7 @@ func runClientScenario(t *testing.T, rec *recorder, cfg *sysCfg, seed uint64, sc
 		rep.Violation("sys/peers-stuck", "peers did not finish within 60 s: client "+cfg.String(), nil)
 	}
 	h.asyncWG.Wait()
+	clientUDP(t, rec, h, cli, cfg, rng, scratch, rep)
 	deadline := time.Now().Add(5 * time.Second)
 	for (atomic.LoadInt32(&h.closedN) < atomic.LoadInt32(&h.opened) || atomic.LoadInt32(&h.pendingCb) > 0) && time.Now().Before(deadline) {
 		time.Sleep(time.Millisecond)
@@ -216,5 +217,114 @@ func TestVerifClient(t *testing.T) {
 	rep.Set("events", rec.seq)
 	if err := rep.Write(); err != nil {
 		t.Fatal(err)
+	}
+}
+
+// clientUDP: a connected UDP socket of the client engine (Dial "udp") talks to a plain echo server, is closed, and is
+// then addressed again through its stale handle while fresh connections of the engine reuse its descriptor number.
+func clientUDP(t *testing.T, rec *recorder, h *vhandler, cli *Client, cfg *sysCfg, rng *vsup.Rng, scratch string, rep *vsup.Report) {
+	us, err := net.ListenUDP("udp", &net.UDPAddr{IP: net.IPv4(127, 0, 0, 1)})
+	if err != nil {
+		return
+	}
+	defer us.Close()
+	go func() { // echo
+		buf := make([]byte, 2048)
+		for {
+			n, from, err := us.ReadFromUDP(buf)
+			if err != nil {
+				return
+			}
+			_, _ = us.WriteToUDP(buf[:n], from)
+		}
+	}()
+	sp := &peerSpec{id: 300, udp: true, network: "udp", done: make(chan struct{}), openOut: -1, closeAt: -1, closeHow: "action", reply: "none", consume: "all"}
+	sp.laddr = us.LocalAddr().String()
+	h.peers.Store(sp.laddr, sp)
+	rec.emit("PeerDial", "c", sp.id, "laddr", sp.laddr, "raddr", "*", "net", "udp", "how", "Dial")
+	gc, err := cli.Dial("udp", sp.laddr)
+	if err != nil {
+		rec.emit("ClientDialErr", "c", sp.id, "how", "Dial-udp", "err", errClass(err))
+		return
+	}
+	cid := sp.id
+	request := func(kind string, do func(cb AsyncCallback) error, wantCb bool) {
+		a := h.newReq()
+		id := cid
+		rec.emit("AIssue", "a", a, "c", id, "kind", kind, "w", 98, "k", 0, "len", 0, "g", vsup.Goid())
+		cb := func(c Conn, err error) error {
+			rec.emit("ACb", "a", a, "c", id, "err", errClass(err), "g", vsup.Goid())
+			atomic.AddInt32(&h.pendingCb, -1)
+			return nil
+		}
+		if !wantCb {
+			rec.emit("ANoCb", "a", a)
+		}
+		e := do(cb)
+		rec.emit("AIssued", "a", a, "err", errClass(e))
+		if e == nil && wantCb {
+			atomic.AddInt32(&h.pendingCb, 1)
+		}
+	}
+	// a few datagrams out (from a user goroutine: Wake makes the loop's side send nothing, so use the socket's own
+	// descriptor-independent path: Conn.Write is only for callbacks; the echo comes back as OnTraffic)
+	for i := 0; i < 3; i++ {
+		request("Wake", func(cb AsyncCallback) error { return gc.Wake(cb) }, true)
+		time.Sleep(2 * time.Millisecond)
+	}
+	request("CloseCb", func(cb AsyncCallback) error { return gc.CloseWithCallback(cb) }, true)
+	deadline := time.Now().Add(3 * time.Second)
+	for atomic.LoadInt32(&h.closedN) < atomic.LoadInt32(&h.opened) && time.Now().Before(deadline) {
+		time.Sleep(time.Millisecond)
+	}
+	time.Sleep(8 * time.Millisecond) // (the canary that grabbed the number lets go of it after 4 ms)
+	// fresh stream connections of the same engine: one of them is likely to get the old number
+	var fresh []Conn
+	var lns []net.Listener
+	for j := 0; j < 4; j++ {
+		ln, lerr := net.Listen("tcp", "127.0.0.1:0")
+		if lerr != nil {
+			break
+		}
+		lns = append(lns, ln)
+		fsp := &peerSpec{id: 310 + j, seed: rng.Uint64(), network: "tcp", done: make(chan struct{}), openOut: -1, closeAt: -1, closeHow: "action",
+			peerRead: "normal", consume: "all", reply: "none", shut: "server"}
+		fsp.laddr = ln.Addr().String()
+		h.peers.Store(fsp.laddr, fsp)
+		go func(ln net.Listener, fsp *peerSpec) {
+			c, aerr := ln.Accept()
+			_ = ln.Close()
+			if aerr != nil {
+				close(fsp.done)
+				return
+			}
+			defer close(fsp.done)
+			peerSession(rec, h, fsp, c, rep)
+		}(ln, fsp)
+		rec.emit("PeerDial", "c", fsp.id, "laddr", fsp.laddr, "raddr", "*", "net", "tcp", "how", "Dial")
+		if c, derr := cli.Dial("tcp", fsp.laddr); derr == nil {
+			fresh = append(fresh, c)
+		}
+	}
+	// the stale handle: nothing of this may reach a callback of the dead connection or touch the fresh ones
+	request("Wake", func(cb AsyncCallback) error { return gc.Wake(cb) }, true)
+	request("CloseCb", func(cb AsyncCallback) error { return gc.CloseWithCallback(cb) }, true)
+	// (on a UDP socket AsyncWrite sends at once on the caller's goroutine and its callback is documented as not to be
+	// relied on: no callback is passed; what matters is that nothing is sent through the dead descriptor number)
+	request("AsyncWrite", func(AsyncCallback) error { return gc.AsyncWrite([]byte("stale"), nil) }, false)
+	time.Sleep(20 * time.Millisecond)
+	// the fresh connections have served their purpose
+	for j, c := range fresh {
+		cc := c
+		cid = 310 + j
+		request("Close", func(AsyncCallback) error { return cc.Close() }, false)
+	}
+	cid = sp.id
+	deadline = time.Now().Add(3 * time.Second)
+	for atomic.LoadInt32(&h.closedN) < atomic.LoadInt32(&h.opened) && time.Now().Before(deadline) {
+		time.Sleep(time.Millisecond)
+	}
+	for _, ln := range lns {
+		_ = ln.Close()
 	}
 }
